@@ -72,9 +72,11 @@ end
 section
 variable [Add K] [Sub K] [Mul K] [Div K] [Neg K] [Zero K] [One K] [IntCast K]
 
-/-- `zernike_fit(**a)`: the basis is requested with `Gen.fitBasisArgs a` -/
+/-- `zernike_fit(**a)`: the basis is requested with `Gen.fitBasisArgs a`; the OPD enters through the REGENERATED selection `Gen.fitSelect`
+(`np.where(mask != 0, opd, 0)`): samples outside the mask are replaced by 0 before the contraction, so they cannot influence the fit — also not
+at `Float`, where `0 * NaN = NaN` -/
 def fitA (sqrtN : Nat → K) (cos sin : K → K) (p k : Nat) (a : Gen.FitArgs (Nat → K) (Nat → Bool) (Nat → Nat) (Nat → K)) : Nat → K :=
-  fitX p k (basisOfArgs sqrtN cos sin (Gen.fitBasisArgs a)) a.opd
+  fitX p k (basisOfArgs sqrtN cos sin (Gen.fitBasisArgs a)) (fun s => Gen.fitSelect (a.mask s) (a.opd s))
 
 /-- `zernike_remove(**a)`: coefficients from `zernike_fit(**Gen.removeFitArgs a)`, basis from `zernike_basis(**Gen.removeBasisArgs a)` -/
 def removeA (sqrtN : Nat → K) (cos sin : K → K) (p k : Nat) (a : Gen.RemoveArgs (Nat → K) (Nat → Bool) (Nat → Nat) (Nat → K)) : Nat → K :=
